@@ -117,7 +117,7 @@ def generic_menu():
     return uniq([None, "", " ", "  ", "\t", "\n", "\xa0", " \xa0\t", "x", "X", "0", "-1", "1", "1.5", "é", "中", "\U0001f600",
                  "\x00", "\x1f", "a b", " a ", "true", "null", "None", "x" * 10240, "meter", "Meter", "METER", "metre",
                  "all", "ALL", "All", "read", "write", "changePermission", "changepermission", "column", "row", "Row", "rows",
-                 "2020", "12:00", "http://example.org/x"])
+                 "2020", "12:00", "http://example.org/x", "\ud800", "1\udc00", "http://example.org/\udce9"])
 
 
 def enum_menu(enum):
@@ -300,6 +300,22 @@ def plan(tier):
     return items
 
 
+def interleave_work(item):
+    """mixed-content rules: the same strings with and without a child element, alternating inside ONE process in both
+    orders, so that a decision cannot be remembered from the other variant"""
+    tier, rule_name, first = item
+    a = Ctx(rule_name, first)
+    b = Ctx(rule_name, "plain" if first == "with_child" else "with_child")
+    acc = core.Acc()
+    for s in lists(tier)["generic"]:
+        for ctx in (a, b):
+            v, probs = run_one(ctx, s)
+            acc.count("strings")
+            acc.outcome(v)
+            acc.add_problems(probs)
+    return acc
+
+
 def enum_work(item):
     tier, rule_name = item
     tab = ruleinfo.table()
@@ -344,6 +360,8 @@ def explore(tier):
     items = plan(tier)
     accs = core.pmap(work, items)
     accs += core.pmap(enum_work, [(tier, rn) for rn in sorted(tab) if tab[rn][2].get("content_enum")])
+    accs += core.pmap(interleave_work, [(tier, rn, first) for rn in sorted(tab) if rn in e2.MIXED_RULES and ruleinfo.automata(rn).names
+                                        for first in ("with_child", "plain")])
     acc = core.merge_all(accs)
     per = acc.notes.pop("per_rule", {})
     Ls = lists(tier)
